@@ -326,6 +326,8 @@ def _terminates(block) -> bool:
     s = block[-1]
     if isinstance(s, (ast.Return, ast.Raise, ast.Continue, ast.Break)):
         return True
+    if isinstance(s, ast.Expr) and isinstance(s.value, ast.Call) and u(s.value.func) in ("assert_never", "typing.assert_never", "typing_extensions.assert_never"):
+        return True         # NoReturn: raises AssertionError
     if isinstance(s, ast.If):
         return bool(s.orelse) and _terminates(s.body) and _terminates(s.orelse)
     if isinstance(s, ast.Try) and not s.finalbody:
@@ -1273,6 +1275,14 @@ class _ExprNorm(ast.NodeTransformer):
             if not (la.vararg or la.kwarg or la.kwonlyargs or la.defaults or la.posonlyargs) and len(la.args) == len(node.args) \
                     and all(isinstance(a, ast.Constant) or norm._attr_chain(a) is not None for a in node.args):
                 return norm._Subst({p_.arg: a for p_, a in zip(la.args, node.args)}).visit(copy.deepcopy(node.func.body))
+        # dict(((k1, v1), (k2, v2))) -> {k1: v1, k2: v2}
+        if f == "dict" and len(node.args) == 1 and not node.keywords and isinstance(node.args[0], (ast.Tuple, ast.List)) \
+                and all(isinstance(e, (ast.Tuple, ast.List)) and len(e.elts) == 2 and not any(isinstance(x, ast.Starred) for x in e.elts) for e in node.args[0].elts):
+            return ast.copy_location(ast.Dict(keys=[e.elts[0] for e in node.args[0].elts], values=[e.elts[1] for e in node.args[0].elts]), node)
+        # getattr(x, "name") -> x.name
+        if f == "getattr" and len(node.args) == 2 and not node.keywords and isinstance(node.args[1], ast.Constant) and isinstance(node.args[1].value, str) \
+                and node.args[1].value.isidentifier():
+            return ast.copy_location(ast.Attribute(value=node.args[0], attr=node.args[1].value, ctx=ast.Load()), node)
         # struct layouts made of single bytes: pack -> bytes([..]), unpack_from(buf, k) -> (buf[k], buf[k + 1], ..)
         st = _struct_call(node)
         if st is not None:
@@ -1907,6 +1917,102 @@ class Canon:
         stmts = [R().visit(s_) for s_ in stmts]
         return stmts, look2
 
+    def _record_ctors(self, module) -> frozenset:
+        """private record classes of the module the tables do not know: NamedTuple / dataclass with the generated constructor only"""
+        known = known_defs()
+        out = set()
+        for cname, c in module.classes.items():
+            if not cname.startswith("_") or f"class:{cname}" in known:
+                continue
+            is_nt = any(u(b_).split(".")[-1] == "NamedTuple" for b_ in c.node.bases)
+            if (is_nt or c.is_dataclass) and not any(n_ in c.methods for n_ in ("__init__", "__post_init__", "__new__", "__getattr__", "__getattribute__")):
+                out.add(cname)
+        return frozenset(out)
+
+    def _project_records_multi(self, stmts, module):
+        """a local that is only ever bound to constructor calls of one private record class (NamedTuple / plain dataclass the tables do not
+        know), possibly in several branches, and only read as x.field / x[i]: the record is its fields, kept in locals x__field"""
+        known = known_defs()
+        recs = {cn: c for cn, c in module.classes.items() if cn in self._record_ctors(module)}
+        if not recs:
+            return stmts
+        stores, loads = {}, {}
+        parents = {}
+        for s_ in stmts:
+            for n in ast.walk(s_):
+                for ch in ast.iter_child_nodes(n):
+                    parents[id(ch)] = n
+        for s_ in stmts:
+            for n in ast.walk(s_):
+                if isinstance(n, ast.Name):
+                    (stores if isinstance(n.ctx, (ast.Store, ast.Del)) else loads).setdefault(n.id, []).append(n)
+        todo = {}
+        for x, ss in stores.items():
+            cls_ = None
+            ok = True
+            for n in ss:
+                a = parents.get(id(n))
+                if not (isinstance(a, ast.Assign) and len(a.targets) == 1 and a.targets[0] is n and isinstance(a.value, ast.Call) and isinstance(a.value.func, ast.Name)
+                        and a.value.func.id in recs and (cls_ is None or cls_ == a.value.func.id)):
+                    ok = False
+                    break
+                cls_ = a.value.func.id
+            if not ok or cls_ is None:
+                continue
+            c = recs[cls_]
+            is_nt = any(u(b_).split(".")[-1] == "NamedTuple" for b_ in c.node.bases)
+            params = [f.name for f in (c.fields if is_nt else c.all_fields()) if (is_nt or f.init) and not f.classvar]
+            for n in loads.get(x, []):
+                a = parents.get(id(n))
+                if isinstance(a, ast.Attribute) and a.value is n and a.attr in params and isinstance(a.ctx, ast.Load):
+                    continue
+                if is_nt and isinstance(a, ast.Subscript) and a.value is n and isinstance(a.slice, ast.Constant) and type(a.slice.value) is int \
+                        and 0 <= a.slice.value < len(params) and isinstance(a.ctx, ast.Load):
+                    continue
+                ok = False
+                break
+            if ok and loads.get(x):
+                todo[x] = (c, params, is_nt)
+        if not todo:
+            return stmts
+
+        class W(ast.NodeTransformer):
+            def visit_Assign(self, node):
+                self.generic_visit(node)
+                if len(node.targets) == 1 and isinstance(node.targets[0], ast.Name) and node.targets[0].id in todo:
+                    x = node.targets[0].id
+                    c, params, is_nt = todo[x]
+                    call = node.value
+                    if any(isinstance(a, ast.Starred) for a in call.args) or any(k.arg is None for k in call.keywords) or len(call.args) > len(params):
+                        raise NoCanon("record constructor with unpacking")
+                    vals = dict(zip(params, call.args))
+                    vals.update({k.arg: k.value for k in call.keywords})
+                    if set(vals) != set(params):
+                        raise NoCanon("record constructor with defaults")
+                    order = [p_ for p_ in params[:len(call.args)]] + [k.arg for k in call.keywords]
+                    return [ast.copy_location(ast.Assign(targets=[ast.Name(id=f"{x}__{p_}", ctx=ast.Store())], value=vals[p_]), node) for p_ in order]
+                return node
+
+            def visit_Attribute(self, node):
+                if isinstance(node.value, ast.Name) and node.value.id in todo and isinstance(node.ctx, ast.Load):
+                    return ast.copy_location(ast.Name(id=f"{node.value.id}__{node.attr}", ctx=ast.Load()), node)
+                return self.generic_visit(node)
+
+            def visit_Subscript(self, node):
+                if isinstance(node.value, ast.Name) and node.value.id in todo and isinstance(node.ctx, ast.Load) and isinstance(node.slice, ast.Constant):
+                    return ast.copy_location(ast.Name(id=f"{node.value.id}__{todo[node.value.id][1][node.slice.value]}", ctx=ast.Load()), node)
+                return self.generic_visit(node)
+        try:
+            new = []
+            for s_ in copy.deepcopy(stmts):
+                r = W().visit(s_)
+                new += r if isinstance(r, list) else [r]
+            for n_ in new:
+                ast.fix_missing_locations(n_)
+            return new
+        except NoCanon:
+            return stmts
+
     def _project_nested(self, stmts, module):
         """_project_helper_objects in every block"""
         stmts = self._project_helper_objects(stmts, module)
@@ -2034,6 +2140,43 @@ class Canon:
                     ast.fix_missing_locations(n_)
                 return self._project_helper_objects(new, module)
         return stmts
+
+    def _inline_class_constants(self, stmts, cls):
+        """self.NAME / cls.NAME / Class.NAME with NAME a private class-level literal (constant, table of names / constants) that the tables
+        do not know and nothing assigns outside the class body: its reads are replaced by the literal"""
+        if cls is None:
+            return stmts
+        known = known_defs()
+        consts = {}
+        for k_ in cls.mro:
+            # (annotated class-level literals too, unless the class is a dataclass, where they are instance fields)
+            level = dict(k_.class_assigns)
+            if not k_.is_dataclass:
+                level.update({f.name: f.node.value for f in k_.fields if f.node.value is not None})
+            for name, v in level.items():
+                if name in consts or not (name.startswith("_") and not name.startswith("__")) or any(f"{b_.name}.{name}" in known for b_ in cls.mro) \
+                        or any(f"cconst:{b_.name}.{name}" in known for b_ in cls.mro):
+                    continue
+                if isinstance(v, ast.Constant) and isinstance(v.value, (int, str, bytes)) and not isinstance(v.value, bool):
+                    consts[name] = v
+                elif isinstance(v, (ast.Tuple, ast.List)) and 1 <= len(v.elts) <= 8 and all(_table_entry(e) for e in v.elts):
+                    consts[name] = v
+                elif isinstance(v, ast.Dict) and 1 <= len(v.keys) <= 12 and all(k is not None and (isinstance(k, ast.Constant) or norm._attr_chain(k) is not None) for k in v.keys) \
+                        and all(_table_entry(e) for e in v.values):
+                    consts[name] = v
+        if not consts:
+            return stmts
+        # never stored as an attribute anywhere in the program
+        stored = {n.attr for m_ in self.prog.modules.values() for n in ast.walk(m_.tree) if isinstance(n, ast.Attribute) and isinstance(n.ctx, (ast.Store, ast.Del))}
+        consts = {k: v for k, v in consts.items() if k not in stored}
+        names = {"self", "cls"} | {k_.name for k_ in cls.mro}
+
+        class C(ast.NodeTransformer):
+            def visit_Attribute(self, node):
+                if isinstance(node.ctx, ast.Load) and node.attr in consts and isinstance(node.value, ast.Name) and node.value.id in names:
+                    return ast.copy_location(copy.deepcopy(consts[node.attr]), node)
+                return self.generic_visit(node)
+        return [ast.fix_missing_locations(C().visit(s_)) for s_ in stmts] if consts else stmts
 
     def _inline_unknown_constants(self, stmts, module, fn):
         """a private module-level literal the rule tables do not know (`_FLAG_ZSTD = 0b1`, added after they were written) is seen
@@ -2524,6 +2667,10 @@ class Canon:
         nested = {n.name: n for n in ast.walk(fn) if isinstance(n, ast.FunctionDef) and n is not fn}
 
         def prep(body):
+            # (tables the helper loops over are written in and the loop unrolled: a `return` inside it is then an ordinary one)
+            body = self._inline_class_constants(body, cls)
+            if any(isinstance(n, ast.For) and isinstance(n.iter, (ast.Tuple, ast.List)) for s_ in body for n in ast.walk(s_)):
+                body = norm.unroll_literal_loops(body)
             body = lower_matches(body, self._match_args(module, fn))
             return norm.first_match_to_next(lift_walrus(lift_ifexp(body)))
 
@@ -2624,7 +2771,7 @@ class Canon:
             return cache[key]
         cache[key] = None
         definers = [(c, c.methods[name], m_) for m_ in self.prog.modules.values() for c in m_.classes.values() if name in c.methods]
-        if not definers or len(definers) > 4 or any(k_.endswith("." + name) for k_ in known if not k_.startswith(("fn:", "class:", "const:"))):
+        if not definers or len(definers) > 4 or any(k_.endswith("." + name) for k_ in known if not k_.startswith(("fn:", "class:", "const:", "cconst:"))):
             return None
         sigs = set()
         for c, m, _ in definers:
@@ -2858,6 +3005,7 @@ class Canon:
         b = norm.multimap_idioms(b)
         b = norm.merge_display_building(b)
         b = self._inline_unknown_constants(b, module, fn)
+        b = self._inline_class_constants(b, cls)
         b = norm.merge_display_building(norm.unroll_literal_loops(b))
         b = _callee_locals(b)
         b = [ast.fix_missing_locations(_ExprNorm().visit(s_)) for s_ in b]         # expression idioms first (map(f, xs), applied lambdas of table rows): helpers in them are then seen
@@ -2885,9 +3033,11 @@ class Canon:
         if b2 is not b:
             b = inl.rec(lift_walrus(lift_ifexp(b2)), inl.depth, (fn.name,))
         b = self._inline_unknown_constants(b, module, fn)      # .. those read by the helpers that were just inlined
+        b = self._inline_class_constants(b, cls)
         b = self._fold_constant_lengths(b, module, fn)
         b = norm.merge_display_building(b)
         b = self._project_helper_objects(b, module)
+        b = self._project_records_multi(b, module)
         b = lift_walrus(lift_ifexp(b))          # conditional expressions returned by inlined helpers
         used = {n.id for s in b for n in ast.walk(s) if isinstance(n, ast.Name)} | {n.func.id for s in b for n in ast.walk(s) if isinstance(n, ast.Call) and isinstance(n.func, ast.Name)}
         b = [s for s in b if not (isinstance(s, ast.FunctionDef) and s.name not in used)]
